@@ -19,7 +19,9 @@ import (
 	"path/filepath"
 	"runtime"
 	"sort"
+	"strings"
 	"sync"
+	"testing/iotest"
 	"time"
 	"unicode/utf8"
 
@@ -45,8 +47,10 @@ type act struct {
 	E   string  `json:"e"`
 	Pos int     `json:"pos"`
 	S   []rstep `json:"s"`
-	I   int     `json:"i"` // poke: index into Bytes()
-	H   int     `json:"h"` // growhuge: which unsatisfiable size
+	I   int     `json:"i"`    // poke: index into Bytes()
+	H   int     `json:"h"`    // growhuge: which unsatisfiable size
+	Nil bool    `json:"nilp"` // an empty payload / destination is passed as a nil slice
+	Src int     `json:"src"`  // pipefrom: kind of source, pipeto: kind of destination (harness table)
 	// first line of a plan
 	Ctor string `json:"ctor"`
 	Init []int  `json:"init"`
@@ -61,6 +65,14 @@ func ints(p []int) []int {
 }
 
 func (a act) rec() tr.E {
+	e := a.rec0()
+	if a.Nil {
+		e["nilp"] = true
+	}
+	return e
+}
+
+func (a act) rec0() tr.E {
 	switch a.Op {
 	case "write", "wstr":
 		return tr.E{"op": a.Op, "p": ints(a.P)}
@@ -68,8 +80,12 @@ func (a act) rec() tr.E {
 		return tr.E{"op": a.Op, "c": a.C}
 	case "poke":
 		return tr.E{"op": a.Op, "i": a.I, "c": a.C}
+	case "wbyterun":
+		return tr.E{"op": a.Op, "n": a.N, "c": a.C}
+	case "rbyterun":
+		return tr.E{"op": a.Op, "n": a.N}
 	case "pipefrom", "pipeto":
-		return tr.E{"op": a.Op, "p": ints(a.P)}
+		return tr.E{"op": a.Op, "p": ints(a.P), "src": a.Src}
 	case "growhuge":
 		return tr.E{"op": a.Op, "h": a.H}
 	case "wrune":
@@ -217,19 +233,26 @@ var errBoom = errors.New("boom")
 // an error that wraps io.EOF is not io.EOF: bytes.Buffer compares with ==, so ReadFrom must hand it back
 var errWrapEOF = fmt.Errorf("source closed: %w", io.EOF)
 
+var errWrapShort = fmt.Errorf("sink: %w", io.ErrShortWrite)
+
+// the sentinel errors either side knows (package io, which buffer.go imports), plain and wrapped
+var sentinels = map[string]error{
+	"EOF": io.EOF, "wrapEOF": errWrapEOF, "unexpEOF": io.ErrUnexpectedEOF, "short write": io.ErrShortWrite,
+	"wrapShort": errWrapShort, "shortbuf": io.ErrShortBuffer, "noprogress": io.ErrNoProgress,
+	"closedpipe": io.ErrClosedPipe, "boom": errBoom,
+}
+
 // kindErr: the error value a scripted reader / writer returns for an error kind of the plan
-func kindErr(kind string) error {
+// ("toolarge": the buffer type's own ErrTooLarge coming back at it from outside)
+func (s *subject) kindErr(kind string) error {
 	switch kind {
 	case "nil", "":
 		return nil
-	case "EOF":
-		return io.EOF
-	case "wrapEOF":
-		return errWrapEOF
-	case "unexpEOF":
-		return io.ErrUnexpectedEOF
-	case "short write":
-		return io.ErrShortWrite
+	case "toolarge":
+		return s.tooLarge
+	}
+	if e, ok := sentinels[kind]; ok {
+		return e
 	}
 	return errBoom
 }
@@ -259,24 +282,20 @@ func wide(n int) int {
 
 // errName keeps the identity of the sentinel errors visible: an error that merely prints like
 // io.EOF is not io.EOF.
-func errName(err error) string {
-	switch err {
-	case nil:
+func (sub *subject) errName(err error) string {
+	if err == nil {
 		return "nil"
-	case io.EOF:
-		return "EOF"
-	case errBoom:
-		return "boom"
-	case io.ErrShortWrite:
-		return "short write"
-	case errWrapEOF:
-		return "wrapEOF"
-	case io.ErrUnexpectedEOF:
-		return "unexpEOF"
+	}
+	if err == sub.tooLarge {
+		return "toolarge"
+	}
+	for k, e := range sentinels {
+		if err == e {
+			return k
+		}
 	}
 	s := err.Error()
-	switch s {
-	case "nil", "EOF", "boom", "short write", "wrapEOF", "unexpEOF":
+	if _, ok := sentinels[s]; ok || s == "nil" || s == "toolarge" {
 		return s + " (a different error value)"
 	}
 	return s
@@ -298,6 +317,7 @@ func (s *subject) panicText(p interface{}) string {
 }
 
 type scriptReader struct {
+	sub   *subject
 	steps []rstep
 	i     int
 	calls int
@@ -324,10 +344,11 @@ func (r *scriptReader) Read(p []byte) (int, error) {
 	if n < len(st.B) {
 		r.small = true
 	}
-	return n, kindErr(st.E)
+	return n, r.sub.kindErr(st.E)
 }
 
 type scriptWriter struct {
+	sub   *subject
 	k     int
 	e     string
 	calls int
@@ -340,8 +361,13 @@ func (w *scriptWriter) Write(p []byte) (int, error) {
 	if w.e == "panic" {
 		panic("writer panic")
 	}
-	return w.k, kindErr(w.e)
+	return w.k, w.sub.kindErr(w.e)
 }
+
+// appendSink is the plainest io.Writer a caller can have
+type appendSink struct{ buf []byte }
+
+func (w *appendSink) Write(p []byte) (int, error) { w.buf = append(w.buf, p...); return len(p), nil }
 
 // input copies a payload into the subject's one input buffer, which is reused from call to call the
 // way a caller reuses its scratch slice; priv is the harness's private copy to compare with.
@@ -378,18 +404,21 @@ func (s *subject) do(a act, lazy bool) (r reply) {
 	switch a.Op {
 	case "write":
 		in, priv := s.input(a.P)
+		if a.Nil && len(in) == 0 {
+			in = nil
+		}
 		n, err := b.Write(in)
-		r = reply{N: clamp(n), Err: errName(err), Mut: !bytes.Equal(in, priv)}
+		r = reply{N: clamp(n), Err: s.errName(err), Mut: !bytes.Equal(in, priv)}
 		spoil(in)
 		return r
 	case "wstr":
 		n, err := b.WriteString(string(toBytes(a.P)))
-		return reply{N: clamp(n), Err: errName(err)}
+		return reply{N: clamp(n), Err: s.errName(err)}
 	case "wbyte":
-		return reply{Err: errName(b.WriteByte(byte(a.C)))}
+		return reply{Err: s.errName(b.WriteByte(byte(a.C)))}
 	case "wrune":
 		n, err := b.WriteRune(rune(a.R))
-		return reply{N: clamp(n), Err: errName(err)}
+		return reply{N: clamp(n), Err: s.errName(err)}
 	case "read":
 		var p []byte
 		if lazy {
@@ -400,24 +429,29 @@ func (s *subject) do(a act, lazy bool) (r reply) {
 			}
 			p = s.dst[:a.N] // the caller's one destination slice, reused
 		}
+		if a.Nil && a.N == 0 {
+			p = nil
+		}
 		n, err := b.Read(p)
 		if lazy {
-			return reply{N: clamp(n), Err: errName(err), keepBuf: p[:n], kept: true}
+			return reply{N: clamp(n), Err: s.errName(err), keepBuf: p[:n], kept: true}
 		}
-		return reply{N: clamp(n), Err: errName(err), B: tr.Ints(p[:n])}
+		r = reply{N: clamp(n), Err: s.errName(err), B: tr.Ints(p[:n])}
+		spoil(p) // rendered; the caller does what it likes with its slice, the buffer must not care
+		return r
 	case "next":
 		p := b.Next(wide(a.N))
 		return reply{N: len(p), Err: "nil", B: tr.Ints(p)} // valid only until the next call: rendered at once
 	case "rbyte":
 		c, err := b.ReadByte()
-		return reply{V: int(c), Err: errName(err)}
+		return reply{V: int(c), Err: s.errName(err)}
 	case "rrune":
 		c, n, err := b.ReadRune()
-		return reply{N: clamp(n), V: int(c), Err: errName(err)}
+		return reply{N: clamp(n), V: int(c), Err: s.errName(err)}
 	case "unbyte":
-		return reply{Err: errName(b.UnreadByte())}
+		return reply{Err: s.errName(b.UnreadByte())}
 	case "unrune":
-		return reply{Err: errName(b.UnreadRune())}
+		return reply{Err: s.errName(b.UnreadRune())}
 	case "trunc":
 		b.Truncate(wide(a.N))
 		return reply{Err: "nil"}
@@ -437,26 +471,79 @@ func (s *subject) do(a act, lazy bool) (r reply) {
 		b.Grow(n)
 		return reply{Err: "nil"}
 	case "readfrom":
-		rd := &scriptReader{steps: a.S}
+		rd := &scriptReader{sub: s, steps: a.S}
 		n, err := b.ReadFrom(rd)
 		if rd.small {
 			return reply{N: clamp(int(n)), V: rd.calls, Err: "Read was offered fewer than MinRead bytes"}
 		}
-		return reply{N: clamp(int(n)), V: rd.calls, Err: errName(err)}
+		return reply{N: clamp(int(n)), V: rd.calls, Err: s.errName(err)}
 	case "writeto":
-		w := &scriptWriter{k: wide(a.K), e: a.E}
+		w := &scriptWriter{sub: s, k: wide(a.K), e: a.E}
 		n, err := b.WriteTo(w)
-		return reply{N: clamp(int(n)), V: w.calls, Err: errName(err), B: tr.Ints(w.got)}
-	case "pipefrom": // one caller, two buffers of the same type: this one drains the other
-		peer := s.peer()
-		peer.Write(toBytes(a.P))
-		n, err := b.ReadFrom(peer)
-		return reply{N: clamp(int(n)), V: clamp(peer.Len()), Err: errName(err)}
-	case "pipeto":
+		return reply{N: clamp(int(n)), V: w.calls, Err: s.errName(err), B: tr.Ints(w.got)}
+	case "pipefrom": // ReadFrom the readers a caller really has; reply.v = what is left in the source
+		var src io.Reader
+		left := func() int { return 0 }
+		switch a.Src {
+		case 0: // one caller, two buffers of the same type: this one drains the other
+			peer := s.peer()
+			peer.Write(toBytes(a.P))
+			src, left = peer, peer.Len
+		case 2:
+			sr := strings.NewReader(string(toBytes(a.P)))
+			src, left = sr, sr.Len
+		default:
+			br := bytes.NewReader(toBytes(a.P)) // answers Read(empty) with (0, nil) while data remains
+			left = br.Len
+			switch a.Src {
+			case 3:
+				src = iotest.DataErrReader(br) // last data together with io.EOF
+			case 4:
+				src = iotest.OneByteReader(br)
+			case 5:
+				src = iotest.HalfReader(br)
+			default:
+				src = br
+			}
+		}
+		n, err := b.ReadFrom(src)
+		return reply{N: clamp(int(n)), V: clamp(left()), Err: s.errName(err)}
+	case "pipeto": // reply.b = what the destination holds afterwards
+		if a.Src%2 == 1 {
+			dst := &appendSink{buf: toBytes(a.P)}
+			n, err := b.WriteTo(dst)
+			return reply{N: clamp(int(n)), Err: s.errName(err), B: tr.Ints(dst.buf)}
+		}
 		peer := s.peer()
 		peer.Write(toBytes(a.P))
 		n, err := b.WriteTo(peer)
-		return reply{N: clamp(int(n)), Err: errName(err), B: tr.Ints(peer.Bytes())}
+		return reply{N: clamp(int(n)), Err: s.errName(err), B: tr.Ints(peer.Bytes())}
+	case "wbyterun": // a.N calls logged as one event (long runs around integer widths)
+		r = reply{Err: "nil"}
+		for i := 0; i < a.N; i++ {
+			if err := b.WriteByte(byte(a.C)); err != nil {
+				if r.Err == "nil" {
+					r.Err = s.errName(err)
+				}
+			} else {
+				r.N++
+			}
+		}
+		return r
+	case "rbyterun":
+		r = reply{Err: "nil"}
+		var got []byte
+		for i := 0; i < a.N; i++ {
+			c, err := b.ReadByte()
+			r.Err = s.errName(err)
+			if err != nil {
+				r.V++
+			} else {
+				got = append(got, c)
+			}
+		}
+		r.N, r.B = len(got), tr.Ints(got)
+		return r
 	case "len":
 		return reply{N: clamp(b.Len()), Err: "nil"}
 	case "bytes":
@@ -476,6 +563,9 @@ func (s *subject) do(a act, lazy bool) (r reply) {
 		return reply{Err: "nil", B: tr.Str(s.nilStr())}
 	case "rewrite":
 		in, priv := s.input(a.P)
+		if a.Nil && len(in) == 0 {
+			in = nil
+		}
 		s.rewrite(wide(a.Pos), in)
 		r = reply{Err: "nil", Mut: !bytes.Equal(in, priv)}
 		spoil(in)
@@ -522,12 +612,16 @@ type pending struct {
 type run struct {
 	tex, std     *subject
 	wt, ws       *tr.W
+	plan         bool      // the actions come from a TLC plan
 	lazy         bool      // keep returned aggregates as returned; write this history's events at its end
 	pt, ps       []pending // lazy: the events of this history so far
 	dirty        bool      // some byte consumed since construction / Reset / Truncate(0) (as the spec's `dirty`)
 	lastRead     string    // previous call was this read and it consumed something (generator hint only)
 	lastUnread   string    // previous call was an Unread* right after that read (generator hint only)
 	lastGrow     bool      // previous call was Grow (generator hint only)
+	prevAct      *act      // the previous action (the same call twice)
+	squeezed     bool      // a no-op call was just put between a read and the Unread* to come (generator hint)
+	nsteps       int
 	paths        map[string]int
 	ops          map[string]int
 	diverged     bool
@@ -591,9 +685,10 @@ func texShape(b bufAPI) (c int, p *byte, l, free int) {
 	return
 }
 
-var consuming = map[string]bool{"read": true, "next": true, "rbyte": true, "rrune": true, "writeto": true, "pipeto": true}
+var consuming = map[string]bool{"read": true, "next": true, "rbyte": true, "rrune": true, "writeto": true, "pipeto": true,
+	"rbyterun": true}
 var appending = map[string]bool{"write": true, "wstr": true, "wbyte": true, "wrune": true, "readfrom": true, "grow": true,
-	"pipefrom": true}
+	"pipefrom": true, "wbyterun": true}
 
 // step executes one action on both buffers and logs it.  Returns false if the action is not
 // applicable (ReWrite after something was consumed) and was skipped.
@@ -601,6 +696,17 @@ func (r *run) step(a act) bool {
 	if a.Op == "rewrite" && r.dirty {
 		return false
 	}
+	r.nsteps++
+	if r.plan { // dimensions the specification does not carry are drawn here
+		switch a.Op {
+		case "pipefrom", "pipeto":
+			a.Src = r.nsteps % 6
+		case "write", "rewrite", "read":
+			a.Nil = r.nsteps%2 == 0
+		}
+	}
+	keep := a
+	r.prevAct = &keep
 	if (a.Op == "unbyte" || a.Op == "unrune") && r.lastGrow {
 		r.afterGrowUnr++
 	}
@@ -756,6 +862,9 @@ func (r *run) edgeSize(rng *rand.Rand) int {
 	case 1:
 		return rng.Intn(200)
 	}
+	if rng.Intn(30) == 0 { // k*2^j and its neighbours beyond the constants of the code (64, 512)
+		return blockSizes[rng.Intn(len(blockSizes))]
+	}
 	n := cands[rng.Intn(len(cands))]
 	if n < 0 {
 		n = 0
@@ -765,6 +874,8 @@ func (r *run) edgeSize(rng *rand.Rand) int {
 	}
 	return n
 }
+
+var blockSizes = []int{255, 256, 257, 1023, 1024, 1025, 1535, 1536, 1537, 2047, 2048, 2049, 4095, 4096, 4097}
 
 func (r *run) script(rng *rand.Rand) []rstep {
 	n := 1 + rng.Intn(3)
@@ -780,7 +891,8 @@ func (r *run) script(rng *rand.Rand) []rstep {
 		s = append(s, rstep{B: payload(rng, sz), E: "nil"})
 	}
 	// every way a source can end: the error alone or together with the last data
-	kinds := []string{"EOF", "EOF", "EOF", "boom", "wrapEOF", "unexpEOF", "panic", "neg"}
+	kinds := []string{"EOF", "EOF", "EOF", "EOF", "boom", "wrapEOF", "unexpEOF", "panic", "neg", "shortbuf", "noprogress",
+		"closedpipe", "short write", "wrapShort", "toolarge"}
 	k := kinds[rng.Intn(len(kinds))]
 	if k == "neg" || k == "panic" || rng.Intn(2) == 0 {
 		s = append(s, rstep{B: []int{}, E: k})
@@ -805,6 +917,24 @@ func (r *run) randAct(rng *rand.Rand) act {
 		}
 		return act{Op: "unrune"}
 	}
+	// a call that moves nothing, squeezed between a read and its Unread*: each of them is a
+	// "non-read operation" in its own way
+	if r.squeezed {
+		r.squeezed = false
+		if x := rng.Intn(10); x < 8 {
+			return act{Op: []string{"unbyte", "unrune"}[x%2]}
+		}
+	}
+	if r.lastRead != "" && rng.Intn(100) < 12 {
+		r.squeezed = true
+		return []act{{Op: "read", N: 0}, {Op: "read", N: 0, Nil: true}, {Op: "next", N: 0}, {Op: "write"},
+			{Op: "write", Nil: true}, {Op: "wstr"}, {Op: "trunc", N: l}, {Op: "grow", N: 0},
+			{Op: "readfrom", S: []rstep{{B: []int{}, E: "EOF"}}}, {Op: "pipefrom", Src: rng.Intn(6)},
+			{Op: "writeto", K: 0, E: "boom"}, {Op: "wbyterun", N: 0}, {Op: "next", N: -1}, {Op: "trunc", N: l + 1}}[rng.Intn(14)]
+	}
+	if r.prevAct != nil && rng.Intn(100) < 6 { // the same call with the same arguments twice
+		return *r.prevAct
+	}
 	// ... and the same read once more on what was given back: decoding the same source twice
 	if r.lastUnread != "" && rng.Intn(100) < 50 {
 		switch r.lastUnread {
@@ -819,7 +949,7 @@ func (r *run) randAct(rng *rand.Rand) act {
 	}
 	switch {
 	case x < 120:
-		return act{Op: "write", P: payload(rng, r.edgeSize(rng))}
+		return act{Op: "write", P: payload(rng, r.edgeSize(rng)), Nil: rng.Intn(2) == 0}
 	case x < 185:
 		return act{Op: "wstr", P: payload(rng, r.edgeSize(rng))}
 	case x < 245:
@@ -828,10 +958,15 @@ func (r *run) randAct(rng *rand.Rand) act {
 		return act{Op: "wrune", R: randRune(rng)}
 	case x < 385:
 		return act{Op: "readfrom", S: r.script(rng)}
+	case x < 397:
+		return act{Op: "pipefrom", P: payload(rng, []int{0, 1, 511, 512, 513, 1024, r.edgeSize(rng)}[rng.Intn(7)]), Src: rng.Intn(6)}
 	case x < 400:
-		return act{Op: "pipefrom", P: payload(rng, r.edgeSize(rng))}
+		if rng.Intn(2) == 0 {
+			return act{Op: "wbyterun", N: 255 + rng.Intn(3), C: rng.Intn(256)}
+		}
+		return act{Op: "rbyterun", N: []int{255, 256, 257, l, l + 1, l / 2}[rng.Intn(6)]}
 	case x < 500:
-		return act{Op: "read", N: r.edgeSize(rng)}
+		return act{Op: "read", N: r.edgeSize(rng), Nil: rng.Intn(2) == 0}
 	case x < 570:
 		n := r.edgeSize(rng)
 		if rng.Intn(10) == 0 {
@@ -859,10 +994,11 @@ func (r *run) randAct(rng *rand.Rand) act {
 		if k < 0 {
 			k = 0
 		}
-		e := []string{"nil", "nil", "nil", "nil", "boom", "EOF", "short write", "panic"}[rng.Intn(8)]
+		e := []string{"nil", "nil", "nil", "nil", "nil", "nil", "boom", "EOF", "short write", "panic", "wrapEOF", "unexpEOF",
+			"wrapShort", "shortbuf", "noprogress", "closedpipe", "toolarge"}[rng.Intn(17)]
 		return act{Op: "writeto", K: k, E: e}
 	case x < 875:
-		return act{Op: "pipeto", P: payload(rng, []int{0, 1, 5, 64, 200}[rng.Intn(5)])}
+		return act{Op: "pipeto", P: payload(rng, []int{0, 1, 5, 64, 200}[rng.Intn(5)]), Src: rng.Intn(2)}
 	case x < 887:
 		return act{Op: "unbyte"}
 	case x < 900:
@@ -881,7 +1017,113 @@ func (r *run) randAct(rng *rand.Rand) act {
 		if r.dirty {
 			return act{Op: "rbyte"}
 		}
-		return act{Op: "rewrite", Pos: edgeArg(rng, l), P: payload(rng, []int{0, 1, 2, 5, l, l + 3}[rng.Intn(6)]%64)}
+		return act{Op: "rewrite", Pos: edgeArg(rng, l), P: payload(rng, []int{0, 1, 2, 5, l, l + 3}[rng.Intn(6)]%64), Nil: rng.Intn(2) == 0}
+	}
+}
+
+// ---------------------------------------------------------------- systematic histories
+
+func fill(n, from int) []int {
+	p := make([]int, n)
+	for i := range p {
+		p[i] = 97 + (from+i)%26
+	}
+	return p
+}
+
+var utf8Text = []int{104, 195, 169, 226, 130, 172, 240, 159, 152, 128, 239, 191, 189, 255, 108} // h e' euro U+1F600 U+FFFD FF l
+
+// shapes: the states a buffer can be in that differ in how storage, offset and last-read bookkeeping
+// stand (never used, one byte, partly read, drained by reading, emptied by Reset / Truncate(0), exactly
+// full, full and partly read, just reallocated, just grown, after a short WriteTo, after ReadFrom)
+var shapes = [][]act{
+	{},
+	{{Op: "wbyte", C: 120}},
+	{{Op: "write", P: utf8Text}},
+	{{Op: "write", P: fill(10, 0)}, {Op: "read", N: 3}},
+	{{Op: "write", P: utf8Text}, {Op: "rrune"}, {Op: "rrune"}},
+	{{Op: "write", P: utf8Text}, {Op: "rrune"}, {Op: "rrune"}, {Op: "rrune"}, {Op: "rrune"}, {Op: "rrune"}},
+	{{Op: "write", P: fill(5, 0)}, {Op: "read", N: 5}},
+	{{Op: "wstr", P: fill(5, 3)}, {Op: "next", N: 5}},
+	{{Op: "write", P: fill(5, 0)}, {Op: "reset"}},
+	{{Op: "write", P: fill(5, 0)}, {Op: "rbyte"}, {Op: "trunc", N: 0}},
+	{{Op: "write", P: fill(8, 0)}},
+	{{Op: "write", P: fill(8, 0)}, {Op: "read", N: 5}},
+	{{Op: "write", P: fill(60, 0)}, {Op: "write", P: fill(10, 8)}},
+	{{Op: "write", P: fill(5, 0)}, {Op: "rbyte"}, {Op: "grow", N: 100}},
+	{{Op: "write", P: fill(6, 0)}, {Op: "writeto", K: 2, E: "nil"}},
+	{{Op: "readfrom", S: []rstep{{B: fill(4, 0), E: "nil"}, {B: fill(2, 4), E: "EOF"}}}, {Op: "rbyte"}},
+	{{Op: "wbyterun", N: 64, C: 65}, {Op: "rbyterun", N: 33}},
+}
+
+// probes: every operation with its degenerate and its ordinary arguments (l = current length)
+func probes(l int) []act {
+	return []act{
+		{Op: "write"}, {Op: "write", Nil: true}, {Op: "write", P: []int{90}}, {Op: "write", P: fill(70, 1)},
+		{Op: "wstr"}, {Op: "wstr", P: []int{195, 169}}, {Op: "wbyte", C: 0}, {Op: "wrune", R: 0x20ac}, {Op: "wrune", R: -1},
+		{Op: "wrune", R: 0xfffd},
+		{Op: "read", N: 0}, {Op: "read", N: 0, Nil: true}, {Op: "read", N: 1}, {Op: "read", N: 100},
+		{Op: "next", N: 0}, {Op: "next", N: 1}, {Op: "next", N: -1}, {Op: "next", N: math.MaxInt32},
+		{Op: "rbyte"}, {Op: "rrune"}, {Op: "unbyte"}, {Op: "unrune"},
+		{Op: "trunc", N: 0}, {Op: "trunc", N: 1}, {Op: "trunc", N: l}, {Op: "trunc", N: l + 1}, {Op: "trunc", N: -1},
+		{Op: "reset"}, {Op: "grow", N: 0}, {Op: "grow", N: 1}, {Op: "grow", N: 100}, {Op: "grow", N: -1}, {Op: "growhuge", H: 1},
+		{Op: "readfrom", S: []rstep{{B: []int{}, E: "EOF"}}}, {Op: "readfrom", S: []rstep{{B: []int{88, 89, 90}, E: "EOF"}}},
+		{Op: "readfrom", S: []rstep{{B: []int{}, E: "nil"}, {B: []int{88}, E: "boom"}}},
+		{Op: "writeto", K: l, E: "nil"}, {Op: "writeto", K: 0, E: "nil"}, {Op: "writeto", K: 1, E: "boom"},
+		{Op: "writeto", K: math.MaxInt32, E: "nil"},
+		{Op: "pipefrom", P: []int{}, Src: 0}, {Op: "pipefrom", P: []int{88, 89}, Src: 1}, {Op: "pipefrom", P: []int{88, 89}, Src: 3},
+		{Op: "pipeto", P: []int{80}, Src: 0}, {Op: "pipeto", P: []int{}, Src: 1},
+		{Op: "len"}, {Op: "bytes"}, {Op: "string"}, {Op: "poke", I: 0, C: 33},
+		{Op: "rewrite", Pos: 0, P: []int{33}}, {Op: "rewrite", Pos: l, P: []int{}, Nil: true},
+		{Op: "wbyterun", N: 3, C: 66}, {Op: "rbyterun", N: 2}, {Op: "rbyterun", N: l + 1},
+	}
+}
+
+// sweep: every probe in every shape, followed by what shows the bookkeeping the probe left behind
+func sweep(begin func(src, kind string, init []byte, size, spare int) *run, finish func(*run)) {
+	np := len(probes(0))
+	for si, sh := range shapes {
+		for pi := 0; pi < np; pi++ {
+			k := si*np + pi
+			var r *run
+			switch k % 3 {
+			case 0:
+				r = begin("sweep", "zero", nil, 0, 0)
+			case 1:
+				r = begin("sweep", "sized", nil, 8, 0)
+			default:
+				r = begin("sweep", "new", []byte{}, 0, 8) // empty, 8 bytes of capacity
+			}
+			if r == nil {
+				continue
+			}
+			for _, a := range sh {
+				r.step(a)
+			}
+			r.step(probes(r.std.b.Len())[pi])
+			r.step(act{Op: []string{"unbyte", "unrune"}[k%2]})
+			r.step(act{Op: "rrune"})
+			r.step(act{Op: "wstr", P: []int{122}})
+			r.step(act{Op: "string"})
+			finish(r)
+		}
+	}
+}
+
+// longRuns: 65535 / 65536 / 65537 repetitions and lengths, where a narrowed offset, length or
+// counter would wrap; logged run-length encoded
+func longRuns(begin func(src, kind string, init []byte, size, spare int) *run, finish func(*run)) {
+	for _, n := range []int{65535, 65536, 65537} {
+		r := begin("long", []string{"zero", "sized", "zero"}[n%3], nil, 64, 0)
+		if r == nil {
+			continue
+		}
+		for _, a := range []act{{Op: "wbyterun", N: n, C: n % 251}, {Op: "len"}, {Op: "rbyterun", N: n - 2}, {Op: "unbyte"},
+			{Op: "rbyterun", N: 4}, {Op: "write", P: fill(n, 0)}, {Op: "next", N: n - 1}, {Op: "unbyte"}, {Op: "read", N: 65536},
+			{Op: "wbyterun", N: 256, C: 9}, {Op: "pipeto", P: []int{1}, Src: 1}, {Op: "string"}} {
+			r.step(a)
+		}
+		finish(r)
 	}
 }
 
@@ -985,6 +1227,7 @@ func main() {
 			if r == nil {
 				continue
 			}
+			r.plan = true
 			for _, a := range p[1:] {
 				if !r.step(a) {
 					skipped++
@@ -993,6 +1236,8 @@ func main() {
 			finish(r)
 		}
 	}
+	sweep(begin, finish)
+	longRuns(begin, finish)
 	ctors := []string{"zero", "zero", "new", "newstr", "sized", "sized"}
 	for i := 0; i < *nhist; i++ {
 		kind := ctors[rng.Intn(len(ctors))]
